@@ -316,6 +316,39 @@ def check_mesh_rank(case):
     return OK(r not in (0, 2 ** ((k + 1) ** 2) - 1) and k >= 1, "mesh_rank")
 
 
+def check_mesh_rank_light(case):
+    """rank and unrank alone against the documented bit layout (cell (x, y) of a pattern of
+    length k is bit x * (k + 1) + y), swept over every shading of every pattern of length 3 and
+    over every shading of one to three cells of the patterns of length 4 and 5"""
+    p, r = tuple(case["p"]), case["r"]
+    k = len(p)
+    cells = frozenset(divmod(i, k + 1) for i in range((k + 1) ** 2) if r >> i & 1)
+    M = MeshPatt.unrank(Perm(p), r)
+    if tuple(M.pattern) != p or frozenset(M.shading) != cells:
+        return BAD("light_mesh_unrank", {"p": list(p), "r": r, "got": repr(M)})
+    got = MeshPatt(Perm(p), sorted(cells)).rank()
+    if got != r or M.rank() != r:
+        return BAD("light_mesh_rank", {"p": list(p), "shading": sorted(cells), "got": got, "want": r})
+    return OK(len(cells) >= 2, "mesh_rank_light", key=f"mrl{p}|{r}")
+
+
+def shard_mesh_rank_light(acc, shard, nshards, full_len, few_cells):
+    i = 0
+    for p in ref.perms(full_len):
+        for r in range(2 ** ((full_len + 1) ** 2)):
+            if i % nshards == shard:
+                acc.record("mesh_rank_light", check_mesh_rank_light, {"p": list(p), "r": r})
+            i += 1
+    for k, maxc in few_cells:
+        bits = (k + 1) ** 2
+        for p in ref.perms(k):
+            for c in range(1, maxc + 1):
+                for combo in itertools.combinations(range(bits), c):
+                    if i % nshards == shard:
+                        acc.record("mesh_rank_light", check_mesh_rank_light, {"p": list(p), "r": sum(1 << b for b in combo)})
+                    i += 1
+
+
 def check_mesh_level(case):
     k = case
     allm = list(MeshPatt.of_length(k))
@@ -393,6 +426,7 @@ CHECKS = {
     "validated": check_validated,
     "mesh_rank": check_mesh_rank,
     "mesh_level": check_mesh_level,
+    "mesh_rank_light": check_mesh_rank_light,
 }
 
 
@@ -539,6 +573,7 @@ FUZZ = {"standardise": ("standardise", seq_cases), "validated": ("validated", va
 
 def run(acc, tier):
     engine.pmap(acc, shard_multisets, extra=((8,) if tier == "quick" else (10,)))
+    engine.pmap(acc, shard_mesh_rank_light, extra=((3, [(4, 2), (5, 2)]) if tier == "quick" else (3, [(4, 3), (5, 3), (6, 2)])))
     if tier == "quick":
         engine.pmap(acc, shard_levels, extra=(7,))
         engine.pmap(acc, shard_generated, extra=(200, 300, 40, 150, 150, 40))
